@@ -240,12 +240,22 @@ class MeanFieldDynamics(BaseAPIClass):
         field: complex
             The field at the time `time`.
         """
-        # Record time in mean-field system times list
+        # Check all input before anything is recorded
         tmp_time = _parse_time(time)
+        tmp_field = _parse_field(field)
+        if len(self._system_dynamics) != 0:
+            assert len(system_states) == len(self._system_dynamics),\
+                "Number of states to add ({}) does not match number of "\
+                "Dynamics objects in "\
+                "MeanFieldDynamics ({})".format(
+                        len(system_states), len(self._system_dynamics))
+        for i, state in enumerate(system_states):
+            _parse_state(state, self._system_dynamics[i]._shape \
+                if len(self._system_dynamics) != 0 else None)
+        # Record time in mean-field system times list
         index = _find_list_index(self._times, tmp_time)
         self._times.insert(index, tmp_time)
         # Record field in mean-field system fields list
-        tmp_field = _parse_field(field)
         self._fields.insert(index, tmp_field)
         # Create list of Dynamics (one for each system), if not already done
         if len(self._system_dynamics) == 0:
